@@ -76,3 +76,19 @@ PROPS["C05"] = {
     ],
 }
 NOT_APPLICABLE.pop("C05", None)
+
+
+PROPS["C13"] = {
+    "level_text": "Bounded model checking of the real RateLimiter::new/enqueue including its f32 arithmetic: for every history of K calls (K=2 quick, 3 thorough) plus one-step harnesses from an arbitrary limiter state that extend independence-from-other-keys and cleanup-harmlessness to histories of any length over two keys with symbolic non-decreasing ns clock, limit 1..3 and window 1 ns..2^36 ns: per key at most `limit` admissions between window starts, at most 2*limit in any window-long interval, first/idle-2-windows attempts admitted, rejected attempts consume nothing, admitted attempts count one, tracked keys younger than 4 windows after every admitted call; decisions of one key identical with and without the other key's traffic (two runs of the same symbolic history).",
+    "level_note": "Trusted: Kani/CBMC incl. its IEEE-754 encoding; erasure rule R4 (HashMap -> association list with the same finite-map semantics) and the model clock (tokio::time::Instant = u64 ns read from a global); metrics empty. Outside the bound: window/2x bounds beyond 3 calls per history, limit > 3 (f32 counters saturate at 2^24: limits above 16 777 216 are not covered), windows above 68 s.",
+    "assumptions": ["limit in 1..=3, duration in 1..=2^36 ns, gaps <= 2^38 ns, keys in {0,1}", "HashMap replaced by association list (R4)", "Instant::now() = model clock"],
+    "explanation": "trace oracle in integer arithmetic over the decisions of the real enqueue()",
+    "harnesses": [
+        H("verif_c13::proofs::bounds_and_step_rules_k2", pkg="passage-protocol", desc="window bound, 2x bound, idle/new admitted, step rules (roll, +1 on admit, nothing on reject), cleanup age bound", bounds="2 calls, 2 keys, limit 1..3, window <= 2^36 ns", timeout_s=1800, mem_gb=12),
+        H("verif_c13::proofs::step_other_key_untouched", pkg="passage-protocol", desc="one step from an arbitrary state: a call for key 1 leaves key 0's bucket unchanged or drops it only if two windows old (inductive: any history length)", bounds="arbitrary 2-bucket state, counts 0..3", timeout_s=1800, mem_gb=12),
+        H("verif_c13::proofs::step_stale_bucket_equals_absent", pkg="passage-protocol", desc="one step: bucket two windows old == absent bucket (so cleanup cannot change decisions)", bounds="arbitrary 2-bucket state", timeout_s=1800, mem_gb=12),
+        H("verif_c13::proofs::bounds_and_step_rules_k3", pkg="passage-protocol", tier="thorough", desc="same as k2 for 3 calls", bounds="3 calls, 2 keys", timeout_s=5400, mem_gb=20),
+        H("verif_c13::proofs::independence_k3", pkg="passage-protocol", tier="thorough", desc="decisions for key 0 equal with/without key 1 traffic", bounds="3 calls, 2 keys", timeout_s=5400, mem_gb=20),
+    ],
+}
+NOT_APPLICABLE.pop("C13", None)
